@@ -27,6 +27,18 @@ def spec_on_impl(o):
     o["logged"] = o.get("logged") or []
     delay, done, parent = k["delay"], o["done_at"], o["parent_at"]
     ctxd, ret = o["ctx_done_at"], o["return_at"] if o["returned"] else None
+    if o["returned"] and o.get("out_at_return") is not None:
+        snap = o["out_at_return"]
+        if snap and not snap.endswith("\n"):
+            return ("at the moment startScanEngine returned the output ended in the middle of a record: %r (slow output: the "
+                    "record of result %s, offered %d ms before the exit delay ran out, is accepted in two pieces %d ms apart)"
+                    % (snap[-12:], k.get("slow_id"), ((done + delay) - max(r["start"] for r in k["results"] if r["taken"])) // MS
+                       if any(r["taken"] for r in k["results"]) else -1, k.get("slow_gap", 0) // MS))
+        at_return = [ln for ln in snap.split("\n") if ln]
+        want = ["id=%d" % r["id"] for r in k["results"] if r["taken"] and 0 <= r["end"] <= ret]
+        if any(x not in at_return for x in want):
+            return ("at the moment startScanEngine returned, the records of results the logger had taken before (%s) were not "
+                    "all written: %r" % (want, snap))
     if o.get("bad_output"):
         return "incomplete or foreign record in the output: %s" % o["bad_output"]
     if o["default_ns"] != 300 * MS:
